@@ -113,6 +113,7 @@ func cmdCheck(args []string) {
 	workers := fs.Int("j", runtime.NumCPU(), "workers")
 	only := fs.String("only", "", "run only harnesses whose name contains this")
 	evPath := fs.String("evidence", "", "evidence file (default <verif>/evidence/<ID>.json)")
+	replay := fs.String("replay", "", "replay a recorded counterexample file")
 	verbose := fs.Bool("v", false, "verbose")
 	var pid string
 	if len(args) > 0 && !strings.HasPrefix(args[0], "-") {
@@ -156,6 +157,9 @@ func cmdCheck(args []string) {
 		fail(2, "INCONCLUSIVE property=%s cannot load /repo with harness overlays: %v", pid, err)
 	}
 	loadS := time.Since(t0).Seconds()
+	if *replay != "" {
+		os.Exit(doReplay(P, ps, pid, *replay, *tier))
+	}
 
 	var results []*HarnessResult
 	for _, hs := range ps.Harnesses {
@@ -319,4 +323,50 @@ func cmdCheck(args []string) {
 	fmt.Printf("property=%s tier=%s harnesses=%d paths=%d obligations=%d discharged=%d violations=%d known=%d queries=%d solver_s=%.1f wall_s=%.1f exit=%d\n",
 		pid, *tier, len(results), paths, obl, dis, nViol, nKnown, gStats.Queries, float64(gStats.TimeNanos)/1e9, time.Since(t0).Seconds(), exit)
 	os.Exit(exit)
+}
+
+// doReplay re-executes the recorded path of a counterexample with every symbolic
+// variable pinned to its model value and reports whether the violation reappears.
+func doReplay(P *Program, ps *PropertySpec, pid, path, tier string) int {
+	b, err := os.ReadFile(path)
+	if err != nil {
+		fmt.Println("INCONCLUSIVE replay:", err)
+		return 2
+	}
+	var rf struct {
+		Violation *Violation `json:"violation"`
+	}
+	if err := json.Unmarshal(b, &rf); err != nil || rf.Violation == nil {
+		fmt.Println("INCONCLUSIVE replay: bad file")
+		return 2
+	}
+	v := rf.Violation
+	var spec *HarnessSpec
+	for _, h := range ps.Harnesses {
+		if h.Name == v.Harness && h.Pkg == v.Pkg {
+			spec = h
+			break
+		}
+	}
+	if spec == nil {
+		fmt.Println("INCONCLUSIVE replay: harness not registered:", v.Harness)
+		return 2
+	}
+	h := NewHarnessRun(P, spec, tier)
+	h.pins = v.Model
+	h.replayPath = v.Decisions
+	if h.replayPath == nil {
+		h.replayPath = []int{}
+	}
+	err = h.Run(1)
+	r := h.Result(err)
+	for _, w := range r.Violations {
+		if w.Label == v.Label {
+			fmt.Printf("REPLAY property=%s harness=%s label=%s reproduced=true (recorded path re-executed with all %d model values pinned)\n", pid, v.Harness, v.Label, len(v.Model))
+			fmt.Printf("VIOLATION property=%s replay=%s\n", pid, path)
+			return 1
+		}
+	}
+	fmt.Printf("REPLAY property=%s harness=%s label=%s reproduced=false (the tree no longer violates this obligation on the recorded path)\n", pid, v.Harness, v.Label)
+	return 0
 }
